@@ -70,6 +70,9 @@ def stamp(off: int, n: int, salt: int = 0) -> bytes:
     return b[s:s + n]
 
 
+_DECOY_FD = None
+
+
 class SparseFile(io.RawIOBase):
     """A read-only virtual file of `size` bytes.
 
@@ -160,6 +163,22 @@ class SparseFile(io.RawIOBase):
         data = self.read(len(b))
         b[:len(data)] = data
         return len(data)
+
+    def fileno(self):
+        """Like gzip.GzipFile or a tarfile member stream, this handle has a descriptor that is NOT the byte stream it
+        exposes (here: a decoy file of 0xA5 bytes).  A reader may only use the file protocol of the object it was given."""
+        global _DECOY_FD
+        if _DECOY_FD is None:
+            path = os.path.join(OUT, "decoy.bin")
+            if not os.path.exists(path) or os.path.getsize(path) != (4 << 20):
+                os.makedirs(OUT, exist_ok=True)
+                tmp = f"{path}.{os.getpid()}"
+                with open(tmp, "wb") as fh:
+                    fh.write(b"\xa5" * (4 << 20))
+                os.replace(tmp, path)
+            _DECOY_FD = os.open(path, os.O_RDONLY)
+        self.log.append(("fileno",))
+        return _DECOY_FD
 
     def write(self, *a, **k):
         self.violations.append(("write",))
